@@ -133,6 +133,21 @@ pub fn check_roundtrip(raw: &RawRecipe, st: &mut Stats) -> Verdict {
     if let Some((what, d)) = diff(&expected, &actual) {
         vbail!(format!("c01.mismatch.{what}"), "{d}; {cfg} parser; source {src:?}");
     }
+    // the metadata entries are the intended ones for the metadata-only parse of the same text as well
+    match guard(|| parser.parse_metadata(&src)) {
+        Err(p) => vbail!("c01.panic", "{cfg} parser panicked in parse_metadata: {p}; source {src:?}"),
+        Ok(res) => {
+            let errors: Vec<String> = res.report().errors().map(|e| e.message.to_string()).collect();
+            vensure!(errors.is_empty() && res.output().is_some(), "c01.error-on-well-formed", "{cfg} parser: parse_metadata reports errors {errors:?} for source {src:?}");
+            let got: Vec<(serde_yaml::Value, serde_yaml::Value)> = res.output().unwrap().map.iter().map(|(k, v)| (k.clone(), v.clone())).collect();
+            vensure!(
+                got == actual.metadata,
+                "c01.mismatch.metadata-only-parse",
+                "the metadata-only parse returns {got:?}, the intended entries (and the full parse) are {:?}; {cfg} parser; source {src:?}",
+                actual.metadata
+            );
+        }
+    }
     Ok(())
 }
 
